@@ -482,7 +482,15 @@ impl GRLParser {
         // Use DOTALL flag to match newlines in rule body
         let mut rules = Vec::new();
 
-        for rule_match in rule_split_regex().find_iter(grl_text) {
+        // Comment lines are not part of the rule text: drop them before looking for
+        // rule boundaries, so that a `}` or the word `rule` in a comment is not one
+        let without_comment_lines = grl_text
+            .lines()
+            .filter(|line| !line.trim_start().starts_with("//"))
+            .collect::<Vec<_>>()
+            .join("\n");
+
+        for rule_match in rule_split_regex().find_iter(&without_comment_lines) {
             let rule_text = rule_match.as_str();
             let rule = self.parse_single_rule(rule_text)?;
             rules.push(rule);
